@@ -170,6 +170,15 @@ func derivedFrom(v ssa.Value, srcs map[ssa.Value]bool, depth int) bool {
 		return derivedFrom(x.Tuple, srcs, depth-1)
 	case *ssa.UnOp:
 		return derivedFrom(x.X, srcs, depth-1)
+	case *ssa.Call:
+		// min/max builtins select one of their operands
+		if bi, ok := x.Call.Value.(*ssa.Builtin); ok && (bi.Name() == "min" || bi.Name() == "max") {
+			for _, a := range x.Call.Args {
+				if derivedFrom(a, srcs, depth-1) {
+					return true
+				}
+			}
+		}
 	}
 	return false
 }
@@ -255,18 +264,8 @@ func C03(c *Ctx) {
 				c.Pass(r2, k, w.In.Pos(), 1, "write under oracle.Mutex")
 				continue
 			}
-			// caller-holds summary
-			okAll, n := true, 0
-			for _, cs := range c.P.CallersOf(w.Fn) {
-				if cs.Site == nil {
-					continue
-				}
-				n++
-				cls := ComputeLockSets(cs.Caller)
-				if !cls.Holds(cs.Site.(ssa.Instruction), oracleLock, false) {
-					okAll = false
-				}
-			}
+			// caller-holds summary (through up to three levels of helpers)
+			okAll, n := heldAtEveryCall(c, w.Fn, oracleLock, 3)
 			c.Decide(okAll && n > 0, r2, k, w.In.Pos(), n+1, "every caller holds oracle.Mutex at the call", "write to oracle."+f+" without oracle.Mutex (function and its callers do not all hold it)")
 		}
 	}
@@ -376,17 +375,58 @@ func conflictTestShapeGroup(c *Ctx, r5 string) {
 			}
 			c.Decide(guarded, r5, key(fn, fmt.Sprintf("intentTable-delete[%d]<-ts==txn.ts", n)), in.Pos(), 2, "an intent entry is dropped only if it still carries the pruned transaction's ts", "pruning an old committed transaction deletes the intent entry of its keys unconditionally: a newer commit's intent on the same key is erased and a later reader of that key is not detected")
 		})
-		// pruning threshold: txn.ts <= maxReadTs where maxReadTs = readMark.DoneUntil()
-		thr := false
-		for _, b := range fn.Blocks {
-			if ifi := ifOf(b); ifi != nil {
-				if bo, ok := ifi.Cond.(*ssa.BinOp); ok && bo.Op == token.LEQ && fieldNameOf(bo.X) == "ts" {
-					if call, ok := bo.Y.(*ssa.Call); ok && Named("utils.(*WaterMark).DoneUntil")(call.Common()) {
-						thr = true
+		// pruning threshold, by order-sign evaluation: a committed transaction with ts > readMark.DoneUntil()
+		// (some open reader's snapshot may be older than it) is kept — the append to the kept slice stays
+		// reachable and no intent entry is deleted for it
+		isDone := func(v ssa.Value) bool {
+			call, ok := Unwrap(v).(*ssa.Call)
+			return ok && Named("utils.(*WaterMark).DoneUntil")(call.Common())
+		}
+		isCts := func(v ssa.Value) bool {
+			v = Unwrap(v)
+			switch x := v.(type) {
+			case *ssa.Field:
+				o, f, _ := FieldOf(x)
+				return o == "NoKV.committedTxn" && f == "ts"
+			case *ssa.UnOp:
+				if o, f, ok := FieldOf(x.X); ok {
+					return o == "NoKV.committedTxn" && f == "ts"
+				}
+			}
+			return false
+		}
+		env := &SignEnv{Depth: 2, Signs: map[string]int{"cts:max": 1, "lookup:cts": 0}, Role: func(v ssa.Value) string {
+			switch {
+			case isDone(v):
+				return "max"
+			case isCts(v):
+				return "cts"
+			}
+			return ""
+		}}
+		thr := true
+		var keep []ssa.Instruction
+		AllInstrs(fn, false, func(in ssa.Instruction) {
+			if call, ok := in.(*ssa.Call); ok {
+				if bi, ok := call.Call.Value.(*ssa.Builtin); ok {
+					if bi.Name() == "append" {
+						keep = append(keep, in)
+					}
+					if bi.Name() == "delete" && env.Reaches(fn, in) {
+						// the delete may still be reachable for OTHER transactions in the loop; only the
+						// straight path from the threshold test matters, checked through keep below
+						_ = in
 					}
 				}
 			}
+		})
+		keptReach := false
+		for _, k := range keep {
+			if env.Reaches(fn, k) {
+				keptReach = true
+			}
 		}
+		thr = keptReach && pruneOnlyAtOrBelow(fn, isCts, isDone)
 		c.Decide(thr, r5, key(fn, "prune:ts<=readMark.DoneUntil"), fn.Pos(), 1, "only transactions at or below the oldest active read timestamp are pruned", "the history pruning threshold is no longer `ts <= readMark.DoneUntil()`")
 	}
 	// the read watermark of a transaction is released exactly once: history pruning trusts
@@ -449,54 +489,92 @@ func beforeSkip(c *Ctx, rule string, fn *ssa.Function, aDesc string, A Matcher, 
 
 // conflictShape checks the comparison operators in hasConflict.
 func conflictShape(c *Ctx, rule string, fn *ssa.Function) {
-	// 1. skip test: committedTxn.ts <= txn.readTs  (LEQ with ts on the left or GEQ reversed); a `<` would wrongly compare equal... accept <= or <.
-	foundSkip, foundIntent := 0, 0
-	for _, b := range fn.Blocks {
-		ifi := ifOf(b)
-		if ifi == nil {
-			continue
-		}
-		bo, ok := ifi.Cond.(*ssa.BinOp)
-		if !ok {
-			continue
-		}
-		lo, lf, lok := FieldOf(Unwrap(bo.X))
-		ro, rf, rok := FieldOf(Unwrap(bo.Y))
-		if lok && rok && lo == "NoKV.committedTxn" && lf == "ts" && ro == "NoKV.Txn" && rf == "readTs" {
-			foundSkip++
-			k := key(fn, fmt.Sprintf("skip-test[%d]", foundSkip))
-			// true edge must be the skip (continue) edge: reaches loop without reaching inner membership test
-			switch bo.Op.String() {
-			case "<=":
-				c.Pass(rule, k, ifi.Pos(), 1, "committed txns with ts <= readTs are skipped (strictly newer are compared)")
-			default:
-				c.Fail(rule, k, ifi.Pos(), 1, "committed-txn skip test uses operator %s (expected ts <= readTs)", bo.Op)
+	// 1. decided by order-sign evaluation over (committed ts, read ts): a committed transaction that is
+	// strictly newer than the reader's snapshot is compared (the membership lookup is reachable), and the
+	// intent-table fast path answers `conflict` only for a strictly newer commit.  The polarity and
+	// shape of the branches do not matter.
+	isCommittedTs := func(v ssa.Value) bool {
+		v = Unwrap(v)
+		switch x := v.(type) {
+		case *ssa.Field:
+			o, f, _ := FieldOf(x)
+			return o == "NoKV.committedTxn" && f == "ts"
+		case *ssa.UnOp:
+			if o, f, ok := FieldOf(x.X); ok {
+				return o == "NoKV.committedTxn" && f == "ts"
 			}
 		}
-		_ = ro
-		_ = rf
+		return false
 	}
-	// intent table fast path: ts > txn.readTs
+	isReadTs := func(v ssa.Value) bool { return isFieldLoad(v, "NoKV.Txn", "readTs") }
+	isIntentTs := func(v ssa.Value) bool {
+		ex, ok := Unwrap(v).(*ssa.Extract)
+		if !ok || ex.Index != 0 {
+			return false
+		}
+		lk, ok := ex.Tuple.(*ssa.Lookup)
+		if !ok {
+			return false
+		}
+		o, f, ok2 := FieldOf(lk.X)
+		return ok2 && o == "NoKV.oracle" && f == "intentTable"
+	}
+	var memb []ssa.Instruction
+	AllInstrs(fn, false, func(in ssa.Instruction) {
+		if l, ok := in.(*ssa.Lookup); ok {
+			if o, f, ok := FieldOf(l.X); ok && o == "NoKV.committedTxn" && f == "conflictKeys" {
+				memb = append(memb, in)
+			}
+		}
+	})
+	role := func(v ssa.Value) string {
+		switch {
+		case isCommittedTs(v):
+			return "cts"
+		case isIntentTs(v):
+			return "its"
+		case isReadTs(v):
+			return "rts"
+		}
+		return ""
+	}
+	foundSkip := 0
+	for i, m := range memb {
+		foundSkip++
+		newer := (&SignEnv{Depth: 1, Role: role, Signs: map[string]int{"cts:rts": 1}}).Reaches(fn, m)
+		c.Decide(newer, rule, key(fn, fmt.Sprintf("skip-test[%d]", i+1)), m.Pos(), 3, "a committed transaction strictly newer than the reader's snapshot is compared with its read set", "a committed transaction with ts > readTs is skipped by hasConflict: a write committed after the reader's snapshot is not detected")
+	}
+	// intent fast path: `return true` directly behind the intent comparison only for its > rts
 	for _, b := range fn.Blocks {
 		ifi := ifOf(b)
 		if ifi == nil {
 			continue
 		}
 		bo, ok := ifi.Cond.(*ssa.BinOp)
-		if !ok {
+		if !ok || !((isIntentTs(bo.X) && isReadTs(bo.Y)) || (isIntentTs(bo.Y) && isReadTs(bo.X))) {
 			continue
 		}
-		ro, rf, rok := FieldOf(Unwrap(bo.Y))
-		if rok && ro == "NoKV.Txn" && rf == "readTs" {
-			if _, _, isField := FieldOf(Unwrap(bo.X)); !isField {
-				foundIntent++
-				k := key(fn, fmt.Sprintf("intent-test[%d]", foundIntent))
-				c.Decide(bo.Op.String() == ">", rule, k, ifi.Pos(), 1, "intent table hit requires ts > readTs", "intent-table comparison uses operator "+bo.Op.String())
+		k := key(fn, "intent-test[1]")
+		// under its <= rts the true-return right behind this test must be unreachable from it
+		bad := false
+		for _, sgn := range []int{-1, 0} {
+			env := &SignEnv{Depth: 1, Role: role, Signs: map[string]int{"its:rts": sgn}}
+			res := env.Eval(ifi.Cond, b, Hist{}, 1)
+			var taken *ssa.BasicBlock
+			switch res {
+			case True:
+				taken = b.Succs[0]
+			case False:
+				taken = b.Succs[1]
+			}
+			if taken == nil || returnsTrueDirectly(taken) {
+				bad = true
 			}
 		}
+		c.Decide(!bad, rule, k, ifi.Cond.Pos(), 2, "intent table hit requires ts > readTs", "the intent-table fast path reports a conflict for a commit that is not newer than the reader's snapshot (or the comparison could not be evaluated)")
 	}
 	if foundSkip == 0 {
-		c.Undec(rule, key(fn, "skip-test"), fn.Pos(), 1, "could not find the committedTxn.ts vs txn.readTs comparison")
+		c.Undec(rule, key(fn, "skip-test"), fn.Pos(), 1, "could not find the membership lookup in committedTxn.conflictKeys")
 	}
 	// a `true` return exists and is reachable from a map lookup on conflictKeys
 	trueRet := 0
@@ -1062,6 +1140,88 @@ func blockInLoop(b *ssa.BasicBlock) bool {
 		if blockReaches(s, b) {
 			return true
 		}
+	}
+	return false
+}
+
+// returnsTrueDirectly: b (following jumps) returns the constant true.
+func returnsTrueDirectly(b *ssa.BasicBlock) bool {
+	seen := map[*ssa.BasicBlock]bool{}
+	for b != nil && !seen[b] {
+		seen[b] = true
+		if len(b.Instrs) == 0 {
+			return false
+		}
+		switch t := b.Instrs[len(b.Instrs)-1].(type) {
+		case *ssa.Return:
+			if k, ok := RetVal(t, 0).(*ssa.Const); ok && k.Value != nil && k.Value.String() == "true" {
+				return true
+			}
+			return false
+		case *ssa.Jump:
+			b = b.Succs[0]
+		default:
+			return false
+		}
+	}
+	return false
+}
+
+// pruneOnlyAtOrBelow: there is a comparison of a committed ts with DoneUntil() whose
+// "ts is greater" edge cannot reach a delete on the intent table before the next loop
+// iteration, i.e. only transactions at or below the threshold lose their intents.
+func pruneOnlyAtOrBelow(fn *ssa.Function, isCts, isDone func(ssa.Value) bool) bool {
+	for _, b := range fn.Blocks {
+		ifi := ifOf(b)
+		if ifi == nil {
+			continue
+		}
+		bo, ok := ifi.Cond.(*ssa.BinOp)
+		if !ok {
+			continue
+		}
+		var greater *ssa.BasicBlock
+		switch {
+		case isCts(bo.X) && isDone(bo.Y):
+			switch bo.Op {
+			case token.LEQ:
+				greater = b.Succs[1]
+			case token.GTR:
+				greater = b.Succs[0]
+			}
+		case isDone(bo.X) && isCts(bo.Y):
+			switch bo.Op {
+			case token.GEQ:
+				greater = b.Succs[1]
+			case token.LSS:
+				greater = b.Succs[0]
+			}
+		}
+		if greater == nil {
+			continue
+		}
+		// walk forward from the greater edge until the loop header (a block dominating b that b can reach)
+		seen := map[*ssa.BasicBlock]bool{}
+		bad := false
+		var walk func(x *ssa.BasicBlock)
+		walk = func(x *ssa.BasicBlock) {
+			if seen[x] || x.Dominates(b) {
+				return
+			}
+			seen[x] = true
+			for _, in := range x.Instrs {
+				if call, ok := in.(*ssa.Call); ok {
+					if bi, ok := call.Call.Value.(*ssa.Builtin); ok && bi.Name() == "delete" {
+						bad = true
+					}
+				}
+			}
+			for _, s := range x.Succs {
+				walk(s)
+			}
+		}
+		walk(greater)
+		return !bad
 	}
 	return false
 }
